@@ -13,6 +13,7 @@
 import Babylon.Anyflow.DepLemmas
 import Babylon.Anyflow.GraphLemmas
 import Babylon.Anyflow.GraphTerm
+import Babylon.Anyflow.View
 
 namespace Babylon.Properties.C05
 open Babylon.Core Babylon.Anyflow Babylon.Gen.Anyflow
@@ -126,6 +127,78 @@ example : ∃ s, Reachable (· ∈ Dep.inits) Dep.Step s ∧ s.finA = 1 ∧ s.cn
 /-- not vacuous: "A, then C (condition true) activating the target, then T" tells the source from `ready()`. -/
 example : ∃ s, Reachable (· ∈ Dep.inits) Dep.Step s ∧ s.notified = 1 ∧ s.actT = 1 ∧ s.rdy = true ∧ s.invoked = 1 :=
   ⟨_, Dep.witness2_reachable, by decide⟩
+
+/-! ## view level — publication under the release/acquire view model (Core/MemView.lean) -/
+
+/-- the orders written in the code on the publication path: every counter decrement / increment, the seal
+CAS, the acquire CAS and `mark_finished` are acq_rel (release AND acquire), `GraphData::ready()` is an
+acquire load -/
+theorem gen_view_orders :
+    ordDepAdd.releases = true ∧ ordDepAdd.acquires = true ∧ ordDepSub.releases = true ∧ ordDepSub.acquires = true ∧
+    ordVertexReady.releases = true ∧ ordVertexReady.acquires = true ∧
+    ordVertexBatch.releases = true ∧ ordVertexBatch.acquires = true ∧
+    ordSeal.releases = true ∧ ordSeal.acquires = true ∧ ordReadyLoad.acquires = true ∧
+    ordAcquireCas.releases = true ∧ ordDataSub.releases = true ∧ ordDataSub.acquires = true ∧
+    ordVertexSub.releases = true ∧ ordVertexSub.acquires = true ∧
+    ordMarkFinished.releases = true ∧ ordMarkFinished.acquires = true := by decide
+
+open Babylon.Anyflow.View Babylon.Core.MemView in
+/-- **data_publication_view** (every execution of the view model, stale reads included; the orders are
+those of the code: the vertex counter is decremented with `ordVertexReady` / `ordVertexBatch`).  An emitter
+writes the value of data `d` (plain), then — after its seal CAS, the dependency counter … — decrements the
+waiting counter `V` of a dependent vertex; the thread whose decrement of `V` triggers the vertex (its RMW
+reads from the release sequence of all earlier decrements, the counter being modified by RMWs only) and the
+processor it then runs read, for that and hence for EVERY dependency, a value no older than the dependency's
+publishing write — although different inputs were published by different threads. -/
+theorem data_publication_view {ma m0 m1 m2 m3 m4 m5 : Mem Loc} {c p d V x : Nat} {ow orr : Core.Ord}
+    {f g : Nat → Nat} {old old' ts v : Nat}
+    (hc : Chain ma) (hw : Path (ma.write c (.val d) ow x) m0)
+    (hx : m0.rmw c (.word V) ordVertexReady f = some (m1, old)) (hp : Path m1 m2)
+    (hs : m2.rmw p (.word V) ordVertexReady g = some (m3, old')) (hq : Path m3 m4)
+    (hr : m4.read p (.val d) orr ts = some (m5, v)) :
+    ma.len (.val d) ≤ ts :=
+  View.data_publication_view hc hw hx (by decide) hp hs (by decide) hq hr
+
+open Babylon.Anyflow.View Babylon.Core.MemView in
+/-- **data_publication_view**, dependency already ready when it is activated: the emitter's seal CAS
+(`ordSeal`) is seen by the activating thread's `GraphData::ready()` (`ordReadyLoad`, reading the sealed
+message or a later one); that thread reports the dependency in its batch `fetch_sub` (`ordVertexBatch`) on
+the vertex counter; the triggering decrement (`ordVertexReady`) acquires it.  Two hops, same conclusion.
+(`View.data_publication_view_activation_rmw` is the variant through the dependency counter's `fetch_add`.) -/
+theorem data_publication_view_activation {ma m0 m1 m2 m3 m4 m5 m6 m7 m8 m9 : Mem Loc} {c a p d S V x : Nat}
+    {ow orr : Core.Ord} {f f2 g : Nat → Nat} {old old2 old' tsS vS ts v : Nat}
+    (hc : Chain ma) (hw : Path (ma.write c (.val d) ow x) m0)
+    (hx : m0.rmw c (.word S) ordSeal f = some (m1, old)) (hp1 : Path m1 m2)
+    (hl : m2.read a (.word S) ordReadyLoad tsS = some (m3, vS)) (hts : m0.len (.word S) ≤ tsS) (hp2 : Path m3 m4)
+    (hx2 : m4.rmw a (.word V) ordVertexBatch f2 = some (m5, old2)) (hp3 : Path m5 m6)
+    (hs : m6.rmw p (.word V) ordVertexReady g = some (m7, old')) (hq : Path m7 m8)
+    (hr : m8.read p (.val d) orr ts = some (m9, v)) :
+    ma.len (.val d) ≤ ts :=
+  View.data_publication_view_activation hc hw hx (by decide) hp1 hl (by decide) hts hp2 hx2 (by decide) hp3 hs (by decide) hq hr
+
+open Babylon.Anyflow.View Babylon.Core.MemView in
+/-- **closure_finish_view.**  Every sealer of a target wrote the value before its `depend_data_sub`
+(`ordDataSub`); the decrement that reaches 0 acquires all of them; the thread returning from `get()` /
+`wait()` continues from that thread through the finish / flush future (`handoff`, the contract proved for
+C08): it observes all target data — every read of a target's value returns the sealer's message or a later one. -/
+theorem closure_finish_view {ma m0 m1 m2 m3 m4 m5 m6 : Mem Loc} {c q g t D x : Nat} {ow orr : Core.Ord}
+    {f f' : Nat → Nat} {old old' ts v : Nat}
+    (hc : Chain ma) (hw : Path (ma.write c (.val t) ow x) m0)
+    (hx : m0.rmw c (.word D) ordDataSub f = some (m1, old)) (hp : Path m1 m2)
+    (hs : m2.rmw q (.word D) ordDataSub f' = some (m3, old')) (hq : Path m3 m4)
+    (hq2 : Path (handoffMem m4 q g) m5) (hr : m5.read g (.val t) orr ts = some (m6, v)) :
+    ma.len (.val t) ≤ ts :=
+  View.closure_finish_view hc hw hx (by decide) hp hs (by decide) hq hq2 hr
+
+open Babylon.Anyflow.View in
+/-- not vacuous + negative controls (concrete executions of the view model, `View.pubRun oE oT stale`):
+with the code's orders the stale read of the input is inadmissible and the fresh one returns the published 7;
+with the emitter's decrement relaxed or acquire-only, or the triggering decrement relaxed or release-only,
+the processor MAY read the stale initial value 0. -/
+example :
+    pubRun ordVertexReady ordVertexReady 0 = none ∧ pubRun ordVertexReady ordVertexReady 1 = some 7 ∧
+    pubRun .rlx ordVertexReady 0 = some 0 ∧ pubRun .acq ordVertexReady 0 = some 0 ∧
+    pubRun ordVertexReady .rlx 0 = some 0 ∧ pubRun ordVertexReady .rel 0 = some 0 := by decide
 
 /-! ## L2 — whole graphs -/
 
